@@ -301,7 +301,7 @@ func scenarios(full lcx.Cfg, basic lcx.Cfg) []scenario {
 		out = append(out, scenario{Name: kind + "/join-with-observe", Cfg: c, Life: []act{s(14 * time.Second)}, LifeSpan: 16 * time.Second})
 		c = base
 		c.TokensPath = "x"
-		out = append(out, scenario{Name: kind + "/restart-from-tokens-file", Cfg: c, PreFile: []uint32{9, 10, 11, 12, 13, 14, 15, 16}[:c.NumTokens], Life: []act{s(9 * time.Second)}, LifeSpan: 11 * time.Second})
+		out = append(out, scenario{Name: kind + "/restart-from-tokens-file", Cfg: c, PreFile: []uint32{12, 9, 16, 10, 11, 14, 15, 13}[:c.NumTokens] /* unsorted, as older versions wrote them */, Life: []act{s(9 * time.Second)}, LifeSpan: 11 * time.Second})
 		c = base
 		c.Unregister, c.TokensPath = false, "x"
 		out = append(out, scenario{Name: kind + "/leave-keeping-entry", Cfg: c, Life: []act{s(9 * time.Second), {Kind: "stop"}, s(8 * time.Second)}, LifeSpan: 19 * time.Second})
